@@ -38,6 +38,7 @@ func (c *zzCurve) Add(x1, y1, x2, y2 *big.Int) (*big.Int, *big.Int) {
 }
 func (c *zzCurve) Double(x1, y1 *big.Int) (*big.Int, *big.Int) { return new(big.Int), new(big.Int) }
 func (c *zzCurve) ScalarMult(x1, y1 *big.Int, k []byte) (*big.Int, *big.Int) {
+	zzKA.multOn = c
 	return new(big.Int), new(big.Int)
 }
 func (c *zzCurve) ScalarBaseMult(k []byte) (*big.Int, *big.Int) { return new(big.Int), new(big.Int) }
@@ -58,6 +59,8 @@ var zzKA struct {
 	unmarshalled bool
 	decryptIn    []byte
 	cipherOut    []byte
+	validatedOn  elliptic.Curve // curve on which the peer's point was checked (elliptic.Unmarshal)
+	multOn       elliptic.Curve // curve on which a peer point was multiplied
 }
 
 func zzTag(s string) string { zzKA.n++; return s + "." + strconv.Itoa(zzKA.n) }
@@ -317,6 +320,7 @@ func zzH_c15_ka_ecdhe_generateServerKeyExchange() {
 }
 
 func zzStubEllipticUnmarshal(curve elliptic.Curve, data []byte) (*big.Int, *big.Int) {
+	zzKA.validatedOn = curve
 	if vBool(zzTag("ecunmarshal.fail")) {
 		return nil, nil
 	}
@@ -387,6 +391,7 @@ func zzH_c15_ka_ecdhe_client() {
 	ka := &ecdheKeyAgreementGM{version: VersionGMSSL}
 	ch, sh := zzHellos()
 	cfg := &Config{Rand: zzRandKA{}}
+	zzKA.validatedOn, zzKA.multOn = nil, nil
 	err := ka.processServerKeyExchange(cfg, ch, sh, cert, skx)
 	if err != nil {
 		vReach("skx-err")
@@ -402,6 +407,8 @@ func zzH_c15_ka_ecdhe_client() {
 		int(key[4+pl])<<8|int(key[5+pl]) == len(key)-6-pl && bytes.Equal(zzKA.verifySig, key[6+pl:]))
 	// the handshake continues with generateClientKeyExchange on the state left by the peer's message
 	pms, ckx, err := ka.generateClientKeyExchange(cfg, ch, cert)
+	// a point is only ever used on the curve it was checked to lie on (crypto/elliptic panics otherwise)
+	vAssert("ecdhe-peer-point-used-on-the-curve-it-was-validated-on", zzKA.multOn == nil || zzKA.multOn == zzKA.validatedOn)
 	if err == nil {
 		vReach("gen-ok")
 		vAssert("ecdhe-gen-output", pms != nil && ckx != nil && len(ckx.ciphertext) >= 1 && int(ckx.ciphertext[0]) == len(ckx.ciphertext)-1)
